@@ -296,13 +296,20 @@ theorem stamps_noDelay (t : Nat) (o : List Vgm.Op) (h : ∀ x ∈ o, isDelay x =
     have hr := ih (fun y hy => h y (by simp [hy]))
     cases x <;> simp_all [stamps, delaySum, isDelay]
 
+theorem toOps_noDelay (w : Wr) : ∀ x ∈ w.toOps, isDelay x = false := by
+  intro x hx
+  unfold Wr.toOps at hx
+  rcases List.mem_cons.mp hx with rfl | hx
+  · rfl
+  · cases hd : w.dac <;> rw [hd] at hx <;> simp at hx <;> subst hx <;> rfl
+
 theorem playStep_ops (d : Data) (song : Song) (s : Drv) :
     (∀ x ∈ (playStep d song s).2.1, isDelay x = false) ∧
     (s.seqCounter < 0 → ∀ x ∈ (playStep d song s).2.1, isWrite x = false) := by
   have hl : ∀ (s' : Drv), (stepLoop s').2 = [] ∨ (stepLoop s').2 = [Vgm.Op.setLoop] := by
     intro s'; unfold stepLoop; split <;> simp
   have hout : (playStep d song s).2.1 =
-      (stepSeq d song s).2.map Wr.toOp ++ (stepLoop (stepPcm (stepSeq d song s).1)).2 := by
+      (stepSeq d song s).2.flatMap Wr.toOps ++ (stepLoop (stepPcm (stepSeq d song s).1)).2 := by
     unfold playStep
     simp only
     split <;> rfl
@@ -310,8 +317,8 @@ theorem playStep_ops (d : Data) (song : Song) (s : Drv) :
   constructor
   · intro x hx
     rcases List.mem_append.mp hx with h | h
-    · obtain ⟨w, _, rfl⟩ := List.mem_map.mp h
-      rfl
+    · obtain ⟨w, _, hw⟩ := List.mem_flatMap.mp h
+      exact toOps_noDelay w x hw
     · rcases hl (stepPcm (stepSeq d song s).1) with e | e <;> rw [e] at h <;> simp at h
       subst h; rfl
   · intro hneg x hx
